@@ -17,6 +17,14 @@ CLAUSES = [(1, "malformed-case"), (2, "error-raised"), (4, "matches?-disagrees")
 # abstract SRE (tagged lists, as printed by TLC) -> SRE datum text for chibi.  Pure syntax:
 # which of SRFI 115's synonymous spellings is used is drawn from the seed.
 # --------------------------------------------------------------------------
+NAMES = {"alphabetic": ["alphabetic", "alpha"], "numeric": ["numeric", "num"], "alphanumeric": ["alphanumeric", "alphanum", "alnum"],
+         "whitespace": ["whitespace", "white", "space"], "punctuation": ["punctuation", "punct"], "symbol": ["symbol"],
+         "lower-case": ["lower-case", "lower"], "upper-case": ["upper-case", "upper"], "hex-digit": ["hex-digit", "xdigit"], "ascii": ["ascii"]}
+PCRE = {"numeric": ("\\\\d", "\\\\D"), "whitespace": ("\\\\s", "\\\\S")}     # as written inside a Scheme string literal
+UNARY = ("star", "plus", "opt", "sub", "nocase", "ascii", "ccompl", "cnocase", "cascii")
+BINARY = ("seq", "or", "cor", "cand", "cdiff")
+
+
 def ch_lit(c):
     if 48 <= c <= 57 or 65 <= c <= 90 or 97 <= c <= 122:
         return "#\\" + chr(c)
@@ -56,6 +64,36 @@ def sexp(t, rng, splice=0.4):
                     "(/ %s)" % str_lit([t[1], t[2]]))
     if k == "any":
         return "any"
+    if k == "nonl":
+        return "nonl"
+    if k == "cls":
+        if t[1] in PCRE and rng.random() < 0.2:
+            return '(pcre "%s")' % PCRE[t[1]][0]              # expanded by the driver with pcre->sre
+        return pick(*NAMES[t[1]])
+    if k == "ccompl":
+        if t[1][0] == "cls" and t[1][1] in PCRE and rng.random() < 0.2:
+            return '(pcre "%s")' % PCRE[t[1][1]][1]
+        parts = flat(t[1], "cor") if rng.random() < 0.5 else [t[1]]        # (~ a b) is the complement of the union
+        return "(%s %s)" % (pick("~", "complement"), " ".join(sexp(p, rng, splice) for p in parts))
+    if k == "cor":
+        parts = flat(t, "cor") if rng.random() < 0.7 else [t[1], t[2]]
+        if len(parts) == 2 and parts[0] == ["cls", "alphanumeric"] and parts[1] in (["lit", 95], ["set", [95]]) and rng.random() < 0.3:
+            return '(pcre "\\\\w")'
+        return "(%s %s)" % (pick("or", "or", "|\\||"), " ".join(sexp(p, rng, splice) for p in parts))
+    if k == "cand":
+        parts = flat(t, "cand") if rng.random() < 0.7 else [t[1], t[2]]
+        return "(%s %s)" % (pick("and", "&"), " ".join(sexp(p, rng, splice) for p in parts))
+    if k == "cdiff":
+        parts = [t[1], t[2]]
+        while parts[0][0] == "cdiff" and rng.random() < 0.7:               # (- a b c) is a minus b minus c
+            parts = [parts[0][1], parts[0][2]] + parts[1:]
+        if parts[-1][0] == "cor" and rng.random() < 0.5:
+            parts = parts[:-1] + flat(parts[-1], "cor")
+        return "(%s %s)" % (pick("-", "difference"), " ".join(sexp(p, rng, splice) for p in parts))
+    if k == "cnocase":
+        return "(w/nocase %s)" % sexp(t[1], rng, splice)
+    if k == "cascii":
+        return "(w/ascii %s)" % sexp(t[1], rng, splice)
     if k == "eps":
         return pick("(:)", "(seq)", '""')
     if k == "empty":
@@ -70,7 +108,7 @@ def sexp(t, rng, splice=0.4):
     if k == "or":
         parts = flat(t, "or") if rng.random() < 0.7 else [t[1], t[2]]
         return "(%s %s)" % (pick("or", "or", "|\\||"), " ".join(sexp(p, rng, splice) for p in parts))
-    if k in ("star", "plus", "opt", "sub", "nocase", "rep"):
+    if k in ("star", "plus", "opt", "sub", "nocase", "ascii", "rep"):
         body = t[-1]
         # (op a b) is (op (: a b)): splice a sequence body sometimes
         if body[0] == "seq" and rng.random() < splice:
@@ -87,6 +125,8 @@ def sexp(t, rng, splice=0.4):
             return "(%s %s)" % (pick("$", "submatch"), b)
         if k == "nocase":
             return "(w/nocase %s)" % b
+        if k == "ascii":
+            return "(w/ascii %s)" % b
         m, n = t[1], t[2]
         if n == -1:
             return "(%s %d %s)" % (pick(">=", "at-least"), m, b)
@@ -103,24 +143,26 @@ def tags(t, acc=None):
     if k == "rep":
         acc.add("rep00" if (t[1], t[2]) == (0, 0) else "rep")
         tags(t[3], acc)
-    elif k in ("seq", "or"):
+    elif k in BINARY:
         acc.add(k); tags(t[1], acc); tags(t[2], acc)
-    elif k in ("star", "plus", "opt", "sub", "nocase"):
+    elif k in UNARY:
         acc.add(k); tags(t[1], acc)
     else:
         acc.add(k)
     return acc
 
 
+def names_in(t, acc=None):
+    acc = set() if acc is None else acc
+    if t[0] == "cls":
+        acc.add(t[1])
+    for i in children(t):
+        names_in(t[i], acc)
+    return acc
+
+
 def size(t):
-    k = t[0]
-    if k == "rep":
-        return 1 + size(t[3])
-    if k in ("seq", "or"):
-        return 1 + size(t[1]) + size(t[2])
-    if k in ("star", "plus", "opt", "sub", "nocase"):
-        return 1 + size(t[1])
-    return 1
+    return 1 + sum(size(t[i]) for i in children(t))
 
 
 # --------------------------------------------------------------------------
@@ -151,15 +193,15 @@ def gen_exhaustive(sc, label, sigma, maxlen, level, fam):
     r = vlib.run_tlc("RegexGen.tla", cfg, sc.path, workers=1, timeout=1500, heap="4g")
     vlib.require_tlc_ok(r, "RegexGen " + label)
     cases = parse_cases(r.out)
-    if not cases or len(cases) > r.distinct or (fam != "case" and len(cases) != r.distinct):
+    if not cases or len(cases) > r.distinct or (fam not in ("case", "named") and len(cases) != r.distinct):
         raise Broken("RegexGen %s: %d cases printed, %d states" % (label, len(cases), r.distinct))
     return cases, r
 
 
-def gen_simulated(sc, label, sigma, num, depth, seed, maxdepth=5, maxlen=12):
+def gen_simulated(sc, label, sigma, num, depth, seed, maxdepth=5, maxlen=12, named=False):
     cfg = write_cfg(sc, "sim_%s.cfg" % label,
-                    "SPECIFICATION Spec\nCONSTANTS Sigma = %s\n D = %d\n MaxDepth = %d\n MaxLen = %d\nINVARIANT Dump\nCHECK_DEADLOCK FALSE\n"
-                    % (setlit(sigma), depth, maxdepth, maxlen))
+                    "SPECIFICATION Spec\nCONSTANTS Sigma = %s\n D = %d\n MaxDepth = %d\n MaxLen = %d\n Named = %s\nINVARIANT Dump\nCHECK_DEADLOCK FALSE\n"
+                    % (setlit(sigma), depth, maxdepth, maxlen, "TRUE" if named else "FALSE"))
     r = vlib.run_tlc("RegexSim.tla", cfg, sc.path, workers=1, simulate=num, depth=depth, seed=seed, timeout=1500, heap="4g")
     vlib.require_tlc_ok(r, "RegexSim " + label)
     if r.violated:
@@ -183,7 +225,7 @@ def sample_member(t, rng, sigma, budget):
     if k == "range":
         c = [x for x in sigma if t[1] <= x <= t[2]]
         return [rng.choice(c)] if c else [t[1]]
-    if k == "any":
+    if k in ("any", "nonl", "cls", "cor", "cand", "cdiff", "ccompl", "cnocase", "cascii"):
         return [rng.choice(sigma)]
     if k in ("eps", "empty", "bol", "eol"):
         return []
@@ -191,7 +233,7 @@ def sample_member(t, rng, sigma, budget):
         return sample_member(t[1], rng, sigma, budget) + sample_member(t[2], rng, sigma, budget)
     if k == "or":
         return sample_member(t[1 + rng.randrange(2)], rng, sigma, budget)
-    if k in ("sub",):
+    if k in ("sub", "ascii"):
         return sample_member(t[1], rng, sigma, budget)
     if k == "nocase":
         s = sample_member(t[1], rng, sigma, budget)
@@ -299,22 +341,22 @@ def evs_by_id(evs, i):
             return e
 
 
-def execute(build, sc, label, cases, seed, jobs_impl=12, jobs_tlc=8, per=2500, phase=None):
-    """shard, run on chibi, validate with TLC.  Returns (events with global ids, {id: clauses})."""
+def execute(build, sc, shards, jobs_impl=12, jobs_tlc=8, phase=None):
+    """shards: list of (label, cases, seed); each shard is answered by one chibi process in the given order.
+       Runs them, validates every recorded result with TLC.  Events get global ids and remember shard / position."""
     t0 = time.time()
-    shards = [(k, cases[i:i + per]) for k, i in enumerate(range(0, len(cases), per))]
-    ran = vlib.parallel(lambda sh: run_impl(build, sc, "%s_%d" % (label, sh[0]), sh[1], seed * 1000 + sh[0]), shards, jobs=jobs_impl)
+    ran = vlib.parallel(lambda sh: run_impl(build, sc, sh[0], sh[1], sh[2]), shards, jobs=jobs_impl)
     evs = []
-    for (k, _), part in zip(shards, ran):
-        for e in part:
-            e["id"] = len(evs)
+    for k, part in enumerate(ran):
+        for pos, e in enumerate(part):
+            e["id"], e["shard"], e["pos"] = len(evs), k, pos
             evs.append(e)
     if phase is not None:
         phase["chibi"] = round(time.time() - t0, 1)
     t0 = time.time()
-    vshards = [(k, evs[i:i + 4 * per]) for k, i in enumerate(range(0, len(evs), 4 * per))]
+    vshards = [(k, evs[i:i + 10000]) for k, i in enumerate(range(0, len(evs), 10000))]
     rej = {}
-    for part in vlib.parallel(lambda sh: validate(sc, "%s_v%d" % (label, sh[0]), sh[1])[0], vshards, jobs=jobs_tlc):
+    for part in vlib.parallel(lambda sh: validate(sc, "all_v%d" % sh[0], sh[1])[0], vshards, jobs=jobs_tlc):
         rej.update(part)
     if phase is not None:
         phase["tlc-validation"] = round(time.time() - t0, 1)
@@ -322,9 +364,62 @@ def execute(build, sc, label, cases, seed, jobs_impl=12, jobs_tlc=8, per=2500, p
 
 
 # --------------------------------------------------------------------------
+# order of cases inside one interpreter process: sessions around the named classes
+# --------------------------------------------------------------------------
+def build_sessions(cases, seed):
+    """cases: TLC-enumerated (sre, subject) pairs of RegexMC level 5 (a named class alone; every combination form with
+       the class as first / middle / last member), subjects = "" and every single probe character.
+       One session (= one chibi process) per class n:  all classes alone;  then, in seeded order, each combination
+       of n followed by n alone again;  finally all classes alone.  Every answer is judged on its own by TLC, so a
+       class whose meaning changed inside the process is rejected at the first later query."""
+    Random = __import__("random").Random
+    by_sre = {}
+    for t, s in cases:
+        by_sre.setdefault(json.dumps(t), []).append((t, s))
+    alone = {json.loads(k)[1]: v for k, v in by_sre.items() if json.loads(k)[0] == "cls"}
+    sessions = []
+    for n in sorted(alone):
+        combos = sorted(k for k in by_sre if json.loads(k)[0] != "cls" and names_in(json.loads(k)) == {n})
+        Random("%d:%s" % (seed, n)).shuffle(combos)
+        sess = []
+        for m in sorted(alone):
+            sess += [(t, s, 100) for t, s in alone[m]]
+        for j, k in enumerate(combos):
+            sess += [(t, s, j % 2) for t, s in by_sre[k]]               # both spellings of (op a b) bodies occur
+            sess += [(t, s, 101 + j) for t, s in alone[n]]
+        for m in sorted(alone):
+            sess += [(t, s, 999) for t, s in alone[m]]
+        sessions.append(("session_%s" % n, sess, seed))
+    if len(sessions) < 8:
+        raise Broken("order family: only %d sessions built" % len(sessions))
+    return sessions
+
+
+def combination_of(t, name):
+    """innermost combination form that has the named class as a direct member, and the member's position"""
+    forms = {"cor": "or", "or": "or", "cand": "and", "cdiff": "-", "ccompl": "~", "cnocase": "w/nocase", "nocase": "w/nocase",
+             "cascii": "w/ascii", "ascii": "w/ascii"}
+    best = None
+    if t[0] in forms:
+        parts = flat(t, t[0]) if t[0] in ("cor", "or", "cand") else ([t[1], t[2]] if t[0] == "cdiff" else [t[1]])
+        if t[0] == "cdiff":
+            while parts[0][0] == "cdiff":
+                parts = [parts[0][1], parts[0][2]] + parts[1:]
+        for i, x in enumerate(parts):
+            if x == ["cls", name]:
+                pos = "only" if len(parts) == 1 else ("first" if i == 0 else ("last" if i == len(parts) - 1 else "middle"))
+                best = "%s-%s" % (forms[t[0]], pos)
+    for i in children(t):
+        inner = combination_of(t[i], name)
+        if inner:
+            best = inner
+    return best
+
+
+# --------------------------------------------------------------------------
 # rejected results: shrink with TLC in the loop, structural key
 # --------------------------------------------------------------------------
-ATOMS = ("lit", "set", "nset", "range", "any", "eps", "empty", "bol", "eol")
+ATOMS = ("lit", "set", "nset", "range", "any", "nonl", "cls", "eps", "empty", "bol", "eol")
 PRINTINGS = 4
 EPS = ["eps"]
 
@@ -339,9 +434,9 @@ def fclass(clauses):
 
 def children(t):
     k = t[0]
-    if k in ("seq", "or"):
+    if k in BINARY:
         return [1, 2]
-    if k in ("star", "plus", "opt", "sub", "nocase"):
+    if k in UNARY:
         return [1]
     if k == "rep":
         return [3]
@@ -429,15 +524,20 @@ def shrink_all(build, sc, items, tagname, rounds=14):
         active = [i for i in active if i in moved]
         if not active:
             break
-    # a case that could not be made smaller at all has not been re-run yet: do it now (flakiness guard)
-    todo = [it for it in items if not it.get("confirmed")]
-    if todo:
-        evs = run_impl(build, sc, "confirm_%s" % tagname, [(it["cur"][0], it["cur"][1], it["last"]["datum"]) for it in todo], 1)
-        rej, _ = validate_soft(sc, "confirm_%s" % tagname, evs)
-        for it, e in zip(todo, evs):
-            if e["id"] not in rej:
-                raise Broken("rejection of %s not reproducible on a second run" % json.dumps(it["last"])[:400])
-            it["last"] = dict(e, clauses=rej[e["id"]])
+    # every minimal case is confirmed alone in a fresh process (the candidates of a round share one process); a minimal
+    # form that does not fail alone is dropped in favour of the original case, which was confirmed alone before
+    def confirm(it):
+        e = run_impl(build, sc, "confirm_%s_%d" % (tagname, it["k"]), [(it["cur"][0], it["cur"][1], it["last"]["datum"])], 1)
+        r, _ = validate_soft(sc, "confirm_%s_%d" % (tagname, it["k"]), e)
+        return dict(e[0], clauses=r[0]) if 0 in r and fclass(r[0]) == it["cls"] else None
+    for k, it in enumerate(items):
+        it["k"] = k
+    todo = [it for it in items if it.get("confirmed")]
+    for it, res in zip(todo, vlib.parallel(confirm, todo, jobs=8)):
+        if res is None:
+            it["cur"], it["last"] = (it["orig"]["sre"], it["orig"]["s"]), it["orig"]
+        else:
+            it["last"] = res
     return items
 
 
@@ -456,9 +556,23 @@ def validate_soft(sc, label, evs):
     return rej, r
 
 
+CANON = {"cor": "or", "cnocase": "nocase", "cascii": "ascii"}      # inside / outside the char-set algebra: the same datum
+
+
+def canon(t):
+    """keys and pattern matching do not distinguish the char-set-level spellings of or / w/nocase / w/ascii"""
+    if t[0] in CANON or children(t):
+        n = list(t)
+        n[0] = CANON.get(t[0], t[0])
+        for i in children(t):
+            n[i] = canon(t[i])
+        return n
+    return t
+
+
 def akind(t):
     """atoms as they appear in keys: the three ways of writing a finite positive class are one kind"""
-    return "cls" if t[0] in ("lit", "set", "range") else t[0]
+    return "cls" if t[0] in ("lit", "set", "range") else ("named" if t[0] == "cls" else t[0])
 
 
 def shape_match(p, t):
@@ -479,8 +593,8 @@ def shape_match(p, t):
             if j < len(pp) and shape_match(pp[j], x):
                 j += 1
         return j == len(pp)
-    if p[0] == "or":
-        pp, tt = flat(p, "or"), flat(t, "or")
+    if p[0] in ("or", "cor", "cand"):
+        pp, tt = flat(p, p[0]), flat(t, p[0])
 
         def assign(k, used):
             if k == len(pp):
@@ -491,24 +605,132 @@ def shape_match(p, t):
 
 
 def contains(p, t):
-    return shape_match(p, t) or any(contains(p, t[i]) for i in children(t))
+    p, t = canon(p), canon(t)
+    if p[0] == "cls":                       # a bare named class as pattern stands for that class only
+        return p == t or any(contains(p, t[i]) for i in children(t))
+    return contains0(p, t)
+
+
+def contains0(p, t):
+    return shape_match(p, t) or any(contains0(p, t[i]) for i in children(t))
 
 
 def signature(t):
+    t = canon(t)
+    if t[0] == "cls":
+        return "named(%s)" % t[1]           # the class name is kept only when the class alone is the minimal case
+    return signature0(t)
+
+
+def signature0(t):
     k = t[0]
     if k == "seq":
-        return "seq(%s,%s)" % (signature(t[1]), signature(t[2]))
-    if k == "or":
-        return "or(%s)" % ",".join(sorted(signature(x) for x in flat(t, "or")))
-    if k in ("star", "plus", "opt", "sub", "nocase"):
-        return "%s(%s)" % (k, signature(t[1]))
+        return "seq(%s,%s)" % (signature0(t[1]), signature0(t[2]))
+    if k in ("or", "cor", "cand"):
+        return "%s(%s)" % (k, ",".join(sorted(signature0(x) for x in flat(t, k))))
+    if k == "cdiff":
+        return "cdiff(%s,%s)" % (signature0(t[1]), signature0(t[2]))
+    if k in UNARY:
+        return "%s(%s)" % (k, signature0(t[1]))
     if k == "rep":
-        return "rep%d_%s(%s)" % (t[1], "inf" if t[2] == -1 else t[2], signature(t[3]))
+        return "rep%d_%s(%s)" % (t[1], "inf" if t[2] == -1 else t[2], signature0(t[3]))
     return akind(t)
 
 
-def report_rejections(chk, build, sc, evs, rej, per_stage=16, stages=3):
+def isolate(build, sc, evs, rej, cap=400):
+    """re-run rejected results alone: one fresh chibi process per SRE datum.  Returns the ids whose rejection does
+       NOT come back (same failure class) - candidates for a dependence on what the process answered before."""
+    groups = {}
+    for i in sorted(rej, key=lambda i: weight((evs[i]["sre"], evs[i]["s"]))):
+        groups.setdefault(evs[i]["datum"], []).append(i)
+    jobs = list(groups.items())[:cap]
+    ran = vlib.parallel(lambda j: run_impl(build, sc, "iso_%d" % j[0], [(evs[i]["sre"], evs[i]["s"], j[1][0]) for i in j[1][1]], 1),
+                        list(enumerate(jobs)), jobs=12)
+    flat_evs, back = [], []
+    for (datum, ids), part in zip(jobs, ran):
+        for i, e in zip(ids, part):
+            e["id"] = len(flat_evs)
+            flat_evs.append(e)
+            back.append(i)
+    r2, _ = validate_soft(sc, "iso", flat_evs)
+    loose = [i for k, i in enumerate(back) if not (k in r2 and fclass(r2[k]) == fclass(rej[i]))]
+    unexamined = [i for datum, ids in list(groups.items())[cap:] for i in ids]
+    return loose, unexamined
+
+
+def order_dependent(chk, build, sc, evs, rej, shards, ids, max_replays=6):
+    """ids: rejected results that are accepted when asked alone.  Their shard (same cases, same order, same spelling)
+       is run once more; a rejection that comes back at the same position is a dependence on the order of cases
+       inside one process and is reported as such; one that does not come back is flakiness of the machinery."""
+    by_shard = {}
+    for i in ids:
+        by_shard.setdefault(evs[i]["shard"], []).append(i)
+    # all sessions, and the few ordinary shards with most such results, are answered again (the others only add to the counts)
+    order = sorted(by_shard, key=lambda k: (not shards[k][0].startswith("session_"), -len(by_shard[k]), k))
+    replayed = [k for k in order if shards[k][0].startswith("session_")] + [k for k in order if not shards[k][0].startswith("session_")][:max_replays]
+
+    def again_job(k):
+        label, cases, seed = shards[k]
+        again = run_impl(build, sc, label + "_again", cases, seed)
+        return again, validate_soft(sc, label + "_again", again)[0]
+    results = dict(zip(replayed, vlib.parallel(again_job, replayed, jobs=8)))
+    found = {}
+    unreplayed = sum(len(by_shard[k]) for k in by_shard if k not in results)
+    for k in sorted(results):
+        lst = by_shard[k]
+        label, cases, seed = shards[k]
+        again, r2 = results[k]
+        for i in lst:
+            pos = evs[i]["pos"]
+            if not (pos in r2 and fclass(r2[pos]) == fclass(rej[i])):
+                raise Broken("rejection of %s is reproducible neither alone nor in its original order" % json.dumps(evs[i])[:400])
+        first = min(lst, key=lambda i: evs[i]["pos"])
+        for i in sorted(lst, key=lambda i: evs[i]["pos"]):
+            e, cls = evs[i], fclass(rej[i])
+            before = None
+            if e["sre"][0] == "cls" and label.startswith("session_"):
+                j = e["pos"] - 1
+                while j >= 0 and again[j]["sre"] == e["sre"]:
+                    j -= 1
+                before = again[j] if j >= 0 else None
+                comb = combination_of(before["sre"], e["sre"][1]) if before else None
+                key = "%s:named-class:after-combination(%s)" % (cls, comb or "other")
+            else:
+                key = "%s:order-dependent:%s" % (cls, "+".join("named(%s)" % n for n in sorted(names_in(e["sre"]))) or signature(e["sre"]))
+            f = found.setdefault(key, {"ids": [], "classes": set(), "example": None})
+            f["ids"].append(i)
+            f["classes"] |= names_in(e["sre"])
+            if f["example"] is None:
+                f["example"] = {"result": dict(e, clauses=rej[i]), "answered-just-before": before, "session": label,
+                                "prefix": [[c[0], c[1], c[2] if len(c) > 2 else 0] for c in cases[:e["pos"] + 1]], "seed": seed}
+    for key, f in sorted(found.items()):
+        ex = f["example"]
+        e = ex["result"]
+        msg = ("%d recorded results rejected by Regex.tla only in the order of their process (accepted when asked alone); classes %s; e.g. sre=%s "
+               "subject=%s matches?=%s search=%s%s"
+               % (len(f["ids"]), sorted(f["classes"]), e["datum"], json.dumps("".join(map(chr, e["s"]))), e["m"], e["ss"] if e["sf"] else "#f",
+                  (" right after " + ex["answered-just-before"]["datum"]) if ex["answered-just-before"] else ""))
+        chk.report(key, msg, "%s.json" % re.sub(r"[^A-Za-z0-9_+-]", "_", key),
+                   {"key": key, "kind": "session", "count": len(f["ids"]), "classes": sorted(f["classes"]), "example": ex,
+                    "how": "./check C20 --replay <this file> answers the recorded prefix of the session in one process on a fresh build; TLC judges the last answer"})
+    counts = {k: len(f["ids"]) for k, f in found.items()}
+    if unreplayed:
+        counts["(accepted alone, shard not answered again)"] = unreplayed
+    return counts
+
+
+def report_rejections(chk, build, sc, evs, rej, shards, per_stage=16, stages=3):
     """group the rejected results by structural key (signature of the minimised case) and report each key once"""
+    counts = {}
+    loose, unexamined = isolate(build, sc, evs, rej)
+    if loose:
+        counts.update(order_dependent(chk, build, sc, evs, rej, shards, loose))
+    if unexamined:       # too many different rejected SREs to look at each: reported, not analysed
+        i = unexamined[0]
+        chk.report("%s:unexamined" % fclass(rej[i]), "%d more rejected results were not analysed individually, e.g. %s" % (len(unexamined), json.dumps(evs[i])[:300]),
+                   "unexamined.json", {"key": "unexamined", "count": len(unexamined), "examples": [dict(evs[j], clauses=rej[j]) for j in unexamined[:10]]})
+        counts["unexamined"] = len(unexamined)
+    rej = {i: c for i, c in rej.items() if i not in set(loose) and i not in set(unexamined)}
     found = {}            # key -> [cls, minimal event, [ids]]
     rest = sorted(rej, key=lambda i: weight((evs[i]["sre"], evs[i]["s"])))
     def attribute(rest):
@@ -537,7 +759,8 @@ def report_rejections(chk, build, sc, evs, rej, per_stage=16, stages=3):
                 chosen.append(i)
             if len(chosen) >= per_stage:
                 break
-        items = [{"cur": (evs[i]["sre"], evs[i]["s"]), "cls": fclass(rej[i]), "last": dict(evs[i], clauses=rej[i])} for i in chosen]
+        items = [{"cur": (evs[i]["sre"], evs[i]["s"]), "cls": fclass(rej[i]), "last": dict(evs[i], clauses=rej[i]),
+                  "orig": dict(evs[i], clauses=rej[i])} for i in chosen]
         shrink_all(build, sc, items, "s%d" % stage)
         # most general minimal forms first; a minimal form that contains an earlier one joins its key
         for i, it in sorted(zip(chosen, items), key=lambda x: weight((x[1]["last"]["sre"], x[1]["last"]["s"]))):
@@ -563,7 +786,8 @@ def report_rejections(chk, build, sc, evs, rej, per_stage=16, stages=3):
         chk.report(key, msg, "%s.json" % re.sub(r"[^A-Za-z0-9_+-]", "_", key),
                    {"key": key, "class": cls, "minimal": m, "count": len(ids), "examples": ex,
                     "how": "./check C20 --replay <this file> re-runs the minimal case on a fresh build and lets TLC judge it"})
-    return {k: len(v[2]) for k, v in found.items()}
+    counts.update({k: len(v[2]) for k, v in found.items()})
+    return counts
 
 
 def snapshot_lib(build, sc):
@@ -579,11 +803,14 @@ def snapshot_lib(build, sc):
 # --------------------------------------------------------------------------
 # the check
 # --------------------------------------------------------------------------
-MC_QUICK = ["A", "A1", "B1", "C1"]
-MC_THOROUGH = ["AT", "A1T", "BT", "CT"]
+MC_QUICK = ["A", "A1", "B1", "C1", "N1", "N5"]
+MC_THOROUGH = ["AT", "A1T", "BT", "CT", "N1", "N5T"]
 INVS = ["TwoFormulations", "SearchIsContextMatch", "SearchFromMatch", "GroupsWF", "ReportSound", "ReportRejectsNonMatch"]
 ASCII4 = [97, 98, 99, NL]
 CASE4 = [97, 65, 98, 66]
+NAMED9 = [97, 65, 48, 32, 33, 43, 955, 1635, NL]             # a A 0 space ! + lambda arabic-indic-three newline
+PROBE = [97, 102, 103, 65, 70, 71, 48, 57, 95, 32, 9, NL, 33, 45, 43, 36, 233, 201, 955, 923, 1635, 160, 191, 26085, 128512, 127, 8232, 65296,
+         8195, 178]                                            # representatives of every class, ASCII and not
 UNI = [955, 923, 233, 201, 1076, 1044, 26085, 128512, NL]      # lambda/Lambda, e-acute/E-acute, de/De, a CJK char, an emoji, newline
 
 
@@ -681,13 +908,17 @@ def run():
                 ("sim", "ascii", ASCII4, 2000 if T else 220, 40, S),
                 ("sim", "ascii2", ASCII4, 2000 if T else 150, 25, S + 1),
                 ("sim", "case", CASE4, 1500 if T else 150, 35, S + 2),
-                ("sim", "unicode", UNI, 800 if T else 70, 35, S + 3)]
+                ("sim", "unicode", UNI, 800 if T else 70, 35, S + 3),
+                # named classes, char-set algebra, w/ascii; the level-5 family is arranged into ordered sessions below
+                ("exh", "named", NAMED9, 2 if T else 1, 1, "named"),
+                ("exh", "order", PROBE, 1, 5, "named"),
+                ("sim", "named", NAMED9, 2500 if T else 300, 35, S + 4)]
 
         def phase_a(j):
             if j[0] == "exh":
                 cases, r = gen_exhaustive(sc, j[1], j[2], j[3], j[4], j[5])
                 return ("exh", j[1], cases, r)
-            return ("sim", j[1], gen_simulated(sc, j[1], j[2], j[3], j[4], j[5]), j[2])
+            return ("sim", j[1], gen_simulated(sc, j[1], j[2], j[3], j[4], j[5], named=(j[1] == "named")), j[2])
         fam = {}
         for res in vlib.parallel(phase_a, jobs, jobs=len(jobs)):
             if res[0] == "exh":
@@ -703,11 +934,16 @@ def run():
         rng = __import__("random").Random(S)
         fam["exh-ab2"] = rng.sample(fam["exh-ab2"], min(len(fam["exh-ab2"]), 40000 if T else 5000))
         # ---- phase B/C: run on the real chibi, TLC judges every recorded result
+        sessions = build_sessions(fam.pop("exh-order"), S)
         cases = []
         for name in sorted(fam):
             cases += fam[name]
-        __import__("random").Random(S).shuffle(cases)          # balances the shards (simulated cases are the expensive ones)
-        evs, rej = execute(build, sc, "all", cases, S, phase=phase)
+        __import__("random").Random(S).shuffle(cases)          # seeded order; also balances the shards (simulated cases are the expensive ones)
+        shards = [("all_%d" % k, cases[i:i + 2500], S * 1000 + k) for k, i in enumerate(range(0, len(cases), 2500))] + sessions
+        evs, rej = execute(build, sc, shards, phase=phase)
+        fam["sessions"] = [c for s in sessions for c in s[1]]
+        chk.cov["ordered_sessions"] = {"sessions": len(sessions), "cases": len(fam["sessions"]),
+                                       "rule": "per named class: all classes alone, then each combination of the class followed by the class alone, then all classes alone; one process per session"}
         t0 = time.time()
         chk.cov["evaluations"] = len(evs)
         chk.cov["traces_validated_against_impl"] = len(evs) - len(rej)
@@ -727,7 +963,8 @@ def run():
             for tg in tags(e["sre"]):
                 ops[tg] = ops.get(tg, 0) + 1
         chk.cov["accepted_cases_per_operator"] = ops
-        need = ["lit", "set", "nset", "range", "any", "seq", "or", "star", "plus", "opt", "rep", "sub", "bol", "eol", "nocase", "eps", "empty"]
+        need = ["lit", "set", "nset", "range", "any", "seq", "or", "star", "plus", "opt", "rep", "sub", "bol", "eol", "nocase", "eps", "empty",
+                "cls", "nonl", "cor", "cand", "cdiff", "ccompl", "cnocase", "cascii", "ascii"]
         missing = [t for t in need if ops.get(t, 0) == 0]
         if missing or chk.cov["accepted_with_matched_group"] < 50 or chk.cov["accepted_whole_matches"] < 500 or \
            chk.cov["accepted_with_unmatched_group"] < 10 or chk.cov["max_depth_subject_len"][0] < 4:
@@ -745,7 +982,7 @@ def run():
         phase["waiting-for-mc"] = round(time.time() - t0, 1); t0 = time.time()
         # ---- rejected results
         if rej:
-            chk.cov["rejected_results"] = report_rejections(chk, build, sc, evs, rej)
+            chk.cov["rejected_results"] = report_rejections(chk, build, sc, evs, rej, shards)
             phase["minimise-rejections"] = round(time.time() - t0, 1)
         chk.cov["rule"] = ("a case = one (SRE, subject) pair: all SREs of depth<=1 over {a,b,c} x all subjects up to length 4 (5 thorough), anchor and case-folding "
                            "families likewise over {a,newline} / {a,A,b}, depth-2 SREs over {a,b} (seeded sample), (seq|or)(unary(seq(atom,atom)),atom) over {a,A} printed as (op a b), "
@@ -767,6 +1004,27 @@ def depth(t):
 
 def replay(path):
     d = json.load(open(path))
+    if d.get("kind") == "session":
+        ex = d["example"]
+        e = ex["result"]
+        print("key      :", d["key"], " classes:", d.get("classes"))
+        print("session  :", ex["session"], "- %d cases answered by one process, in order; the last one is the rejected one" % len(ex["prefix"]))
+        print("last case: sre=%s subject=%s recorded matches?=%s search=%s clauses=%s" % (e["datum"], json.dumps("".join(map(chr, e["s"]))), e["m"],
+                                                                                    e["ss"] if e["sf"] else "#f", e.get("clauses")))
+        if ex.get("answered-just-before"):
+            print("answered just before:", ex["answered-just-before"]["datum"])
+        with vlib.Scratch("c20r") as sc:
+            build = vlib.build_repo(sc.sub("build"))
+            snapshot_lib(build, sc)
+            evs = run_impl(build, sc, "replay", [tuple(c) for c in ex["prefix"]], ex["seed"])
+            rej, r = validate_soft(sc, "replay", evs)
+            last = evs[-1]
+            print("now      : sre=%s matches?=%s search=%s" % (last["datum"], last["m"], last["ss"] if last["sf"] else "#f"))
+            alone = run_impl(build, sc, "replay_alone", [(last["sre"], last["s"], last["datum"])], 1)
+            ra, _ = validate_soft(sc, "replay_alone", alone)
+            print("TLC verdict now, in this order:", "REJECTED " + str(rej[last["id"]]) if last["id"] in rej else "accepted",
+                  "| asked alone:", "REJECTED" if 0 in ra else "accepted")
+            return 1 if last["id"] in rej else 0
     m = d["minimal"]
     print("key      :", d["key"])
     print("sre      :", m.get("datum"), "  abstract:", json.dumps(m["sre"]))
